@@ -1,4 +1,5 @@
 import XrlParser.Lemmas.Result
+import XrlParser.Lemmas.Range
 /-!
 # Concrete table and formulas used as witnesses and non-vacuity instances by Props/C07.lean
 -/
@@ -77,6 +78,55 @@ theorem fParenH_wf : fParenH.WF (elementsOf T0) :=
   ⟨by simp [fParenH], ⟨⟨symH, trivial, trivial⟩, trivial, trivial⟩, by simp, ⟨knH, trivial, trivial⟩, trivial, trivial⟩
 
 /-- the model run on the witness `Rf` -/
-theorem rf_atoms : parseSimple T0 3 ['R', 'f'] = .ok ([(104, 1)], 0) := by rfl
+theorem rf_atoms : parseSimple asIs T0 3 ['R', 'f'] = .ok ([(104, 1)], 0) := by rfl
+
+/-! ## witnesses of the two findings of the audit (clauses 15 and 2/5) -/
+
+def isOk {ε α : Type} : Except ε α → Bool
+  | .ok _ => true
+  | .error _ => false
+
+theorem not_isOk_error {ε α : Type} {r : Except ε α} {e : ε} (h : r = .error e) : isOk r = false := by rw [h]; rfl
+
+/-- `(H)a`: the lower-case letter behind the bracket belongs to nothing -/
+def sHa : List Char := ['(', 'H', ')', 'a']
+
+/-- the shipped scanner skips the `a`: the string is accepted (replayed on the library: `parse C (H)a` → H) -/
+theorem sHa_accepted (v : Variant) (hv : v.strictFix = false) :
+    isOk (compoundParser v T0 ⟨['C']⟩ (some sHa)).result = true := by
+  obtain ⟨a, b, c, d, e⟩ := v
+  simp only at hv
+  subst hv
+  cases a <;> cases b <;> cases c <;> cases e <;> decide +kernel
+
+/-- … although it is not the text of any formula of the grammar: such a text passes the strict first pass
+    (`pass1_print_ok`), `(H)a` does not -/
+theorem sHa_not_formula : ¬ ∃ f : Formula, f.Shape ∧ f.printL = sHa := by
+  rintro ⟨f, hf, hp⟩
+  obtain ⟨st, hst⟩ := pass1_print_ok (v := ⟨false, false, false, true, false⟩) f hf
+  rw [hp] at hst
+  have : isOk (pass1 ⟨false, false, false, true, false⟩ sHa '\x00' {}) = false := by decide +kernel
+  rw [hst] at this
+  cases this
+
+/-- `H1` followed by 309 zeros: 10^309 > DBL_MAX -/
+def sBig : List Char := 'H' :: '1' :: List.replicate 309 '0'
+
+/-- the shipped code accepts it and computes with `+inf` (replayed on the library: nAtoms inf, fraction NaN, no error) -/
+theorem sBig_ovf (v : Variant) (hv : v.rangeFix = false) : (compoundParser v T0 ⟨['C']⟩ (some sBig)).ovf = true := by
+  obtain ⟨a, b, c, d, e⟩ := v
+  simp only at hv
+  subst hv
+  cases a <;> cases b <;> cases c <;> cases d <;> decide +kernel
+
+theorem sub_one_fits : Sub.Fits .one := by constructor <;> decide +kernel
+theorem sub_two_fits : Sub.Fits (.dec ⟨[2], none⟩) := by constructor <;> decide +kernel
+theorem sub_two0_fits : Sub.Fits (.dec ⟨[2], some [0]⟩) := by constructor <;> decide +kernel
+
+theorem fRf_fits : fRf.Fits := ⟨sub_one_fits, trivial⟩
+theorem fMgOH2_fits : fMgOH2.Fits := ⟨sub_one_fits, ⟨sub_one_fits, sub_one_fits, trivial⟩, sub_two_fits, trivial⟩
+theorem fMgO2H2_fits : fMgO2H2.Fits := ⟨sub_one_fits, sub_two_fits, sub_two0_fits, trivial⟩
+theorem fOH2Mg_fits : fOH2Mg.Fits := ⟨⟨sub_one_fits, sub_one_fits, trivial⟩, sub_two_fits, sub_one_fits, trivial⟩
+theorem fParenH_fits : fParenH.Fits := ⟨⟨sub_one_fits, trivial⟩, sub_one_fits, trivial⟩
 
 end XrlParser
